@@ -145,7 +145,7 @@ fn server(sh: Arc<Shared>) {
 
 /// What chronyd says at the poll with this tag: every field the writer classifies or computes with
 /// differs from poll to poll (leap status 0..3, update intervals including 0 right after a non-zero
-/// one, reference times a few seconds in the past or the future, offsets of either sign), so that a
+/// one, reference times a few seconds in the past or the future that stay the same for four polls in a row, offsets of either sign), so that a
 /// poller which repairs, remembers or substitutes any of them is told from one that passes the
 /// report on as it came.
 fn report_of(tag: u16) -> Report {
@@ -153,7 +153,9 @@ fn report_of(tag: u16) -> Report {
     Report {
         ref_id: PHC_REFID,
         leap: [0u16, 0, 1, 0, 2, 3, 0, 0][(t % 8) as usize],
-        ref_time_ns: T0_REAL_S as i128 * NS + ((t % 11) - 7) as i128 * 700_000_000,
+        // (as with chronyd, whose reference time moves once per clock update, not once per poll: the same
+        // for four polls in a row - a poller that keys anything on it must not go stale in between)
+        ref_time_ns: T0_REAL_S as i128 * NS + (((t / 4) % 11) - 7) as i128 * 700_000_000,
         correction_bits: float_bits(if t % 3 == 0 { -1 } else { 1 } * ((1 << 12) + t % 77), 0),
         delay_bits: delay_bits_of(tag),
         dispersion_bits: float_bits((1 << 12) + t % 13, 0),
